@@ -81,6 +81,16 @@ MOS = [
 ]
 
 
+MAIN = "main::{closure#0}"
+VALID_OK = Arm(r"^discr\(try\(call KyroDbConfig::validate\)\)$", {"0"}, name="config.validate()? -> Ok")
+MOS.append(MO("O18.4/server_refuses", "server main: KyroDbConfig::load then validate succeed before any engine is recovered or created, before the auth manager is loaded and before any listener is bound (a rejected configuration cannot start the server)",
+              allof(precedes(MAIN, call(r"= KyroDbConfig::load\(", name="KyroDbConfig::load"), call(r"= KyroDbConfig::validate\(", name="KyroDbConfig::validate")),
+                    only_via(MAIN, call(r"= TieredEngine::recover::", name="TieredEngine::recover"), VALID_OK),
+                    only_via(MAIN, call(r"= AuthManager::load_from_file", name="AuthManager::load_from_file"), VALID_OK),
+                    only_via(MAIN, call(r"TcpListener::bind|Server::builder|= tonic::transport::Server", name="network listener / gRPC server construction"), VALID_OK)),
+              functions=[("bin/kyrodb_server.rs", "main")], target="kyrodb_server"))
+
+
 def run(tier, seed, notes):
     obls = run_mir_obligations("C18", tier, MOS, notes)
     obls += run_kani_group("C18", tier, "lib", {"config.rs": "config_proofs.rs"}, HARNESSES, jobs=8, notes=notes, harness_timeout=(900 if tier == "quick" else 2400))
